@@ -93,6 +93,16 @@ package binary
 //@   ensures file_reader_looks_its_schema_up: emittedHere(": %s(skip_completed_check), yardl::binary::BinaryReader(file_name), version_(%s::VersionFromSchema(schema_read_)) {") == 1
 //@   ensures the_reader_base_is_the_protocol_s_own: emittedArg(": %s(skip_completed_check), yardl::binary::BinaryReader(stream), version_(%s::VersionFromSchema(schema_read_)) {", 0, 1) == common.QualifiedAbstractReaderName(protocol) && emittedArg(": %s(skip_completed_check), yardl::binary::BinaryReader(file_name), version_(%s::VersionFromSchema(schema_read_)) {", 0, 1) == common.QualifiedAbstractReaderName(protocol)
 
+// C05/C08: the protocol methods call the compatibility serializers (`ReadA_v0`, `WriteA_v0`) of every definition that
+// changed since a previous version. They are written for every version that has changes - also when the current model
+// has no type definition left (a model that kept only its protocols).
+//@ func writeNamespaceDefinitions
+//@   property C05,C08
+//@   requires ns != nil
+//@   ensures recorded_changes_open_the_serializer_block: old(len(ns.DefinitionChanges)) > 0 ==> emittedHere("namespace {\n") == 1
+//@   invariant 2: rangeindex + 1 > 0 ==> called(writeCompatibilitySerializers)
+//@   iteration 1: a_version_with_changes_gets_its_serializers: old((versionLabel in ns.DefinitionChanges) && len(ns.DefinitionChanges[versionLabel]) > 0) ==> called(writeCompatibilitySerializers)
+
 // C05: when the element type of a vector (or of a stream batch) changed, the generated reader converts element by
 // element. Every element is converted into a temporary of its own, declared and value-initialised inside the body
 // of the generated loop: a conditional element conversion (an optional that is empty, a union case that is skipped)
